@@ -1,7 +1,6 @@
 package memory
 
 import (
-	"bytes"
 	"maps"
 	"slices"
 
@@ -15,22 +14,49 @@ type batch struct {
 	// Theoretically, we can only maintain the latest write for each key using the map.
 	// However, we want to ensure that the order of writes is maintained and mimics the
 	// behaviour of the real key-value store. Hence, we store them and then flush them afterwards.
-	writes   []keyValue
-	writeMap map[string]keyValue
-	size     int
+	writes []keyValue
+	// index into writes of the latest point write (Put/Delete) of each key
+	writeMap map[string]int
+	// indexes into writes of the range deletes, in the order they were recorded
+	ranges []int
+	size   int
 }
 
 type keyValue struct {
 	key    string
 	value  []byte
 	delete bool
+	// range delete of [key, rangeEnd), recorded like Pebble's range tombstone and applied
+	// to whatever the database holds when the batch is written
+	isRange  bool
+	rangeEnd string
 }
 
 func newBatch(db *Database) *batch {
 	return &batch{
 		db:       db,
-		writeMap: make(map[string]keyValue),
+		writeMap: make(map[string]int),
 	}
+}
+
+// lookup resolves key against the batch's own writes: found reports whether the batch decides the
+// key (a later operation wins over an earlier one), deleted whether that decision is "absent".
+func (b *batch) lookup(key string) (value []byte, deleted, found bool) {
+	idx, ok := b.writeMap[key]
+	for i := len(b.ranges) - 1; i >= 0; i-- {
+		r := b.ranges[i]
+		if ok && r < idx {
+			break
+		}
+		if w := b.writes[r]; key >= w.key && key < w.rangeEnd {
+			return nil, true, true
+		}
+	}
+	if !ok {
+		return nil, false, false
+	}
+	w := b.writes[idx]
+	return w.value, w.delete, true
 }
 
 func (b *batch) Get(key []byte, cb func(value []byte) error) error {
@@ -41,11 +67,11 @@ func (b *batch) Get(key []byte, cb func(value []byte) error) error {
 	b.db.lock.RLock()
 	defer b.db.lock.RUnlock()
 
-	if val, ok := b.writeMap[string(key)]; ok {
-		if val.delete {
+	if val, deleted, found := b.lookup(string(key)); found {
+		if deleted {
 			return db.ErrKeyNotFound
 		}
-		return cb(val.value)
+		return cb(val)
 	}
 
 	val, ok := b.db.db[string(key)]
@@ -64,11 +90,8 @@ func (b *batch) Has(key []byte) (bool, error) {
 	b.db.lock.RLock()
 	defer b.db.lock.RUnlock()
 
-	if val, ok := b.writeMap[string(key)]; ok {
-		if val.delete {
-			return false, nil
-		}
-		return true, nil
+	if _, deleted, found := b.lookup(string(key)); found {
+		return !deleted, nil
 	}
 
 	_, ok := b.db.db[string(key)]
@@ -92,6 +115,7 @@ func (b *batch) NewIterator(prefix []byte, withUpperBound bool) (db.Iterator, er
 		db:       tempDB,
 		writes:   slices.Clone(b.writes),
 		writeMap: maps.Clone(b.writeMap),
+		ranges:   slices.Clone(b.ranges),
 	}
 
 	// write the changes to the temporary db
@@ -110,7 +134,7 @@ func (b *batch) Put(key, value []byte) error {
 
 	kv := keyValue{key: string(key), value: slices.Clone(value)}
 	b.writes = append(b.writes, kv)
-	b.writeMap[string(key)] = kv
+	b.writeMap[string(key)] = len(b.writes) - 1
 	b.size += len(key) + len(value)
 	return nil
 }
@@ -122,7 +146,7 @@ func (b *batch) Delete(key []byte) error {
 
 	kv := keyValue{key: string(key), delete: true}
 	b.writes = append(b.writes, kv)
-	b.writeMap[string(key)] = kv
+	b.writeMap[string(key)] = len(b.writes) - 1
 	b.size += len(key)
 	return nil
 }
@@ -132,27 +156,11 @@ func (b *batch) DeleteRange(start, end []byte) error {
 		return errBatchClosed
 	}
 
-	// Range-based, matching pebble's DeleteRange semantics: delete every
-	// key in [start, end). We iterate with a nil prefix (all keys), Seek
-	// to start, and stop at end. Prefix-bounded iteration would miss keys
-	// whose first bytes only partially share `start` — e.g. a chunk
-	// spanning multiple per-block entries under one address prefix.
-	it, err := b.NewIterator(nil, false)
-	if err != nil {
-		return err
-	}
-	defer it.Close()
-
-	for ok := it.Seek(start); ok; ok = it.Next() {
-		if bytes.Compare(it.Key(), end) >= 0 {
-			break
-		}
-
-		if err := b.Delete(it.Key()); err != nil {
-			return err
-		}
-	}
-
+	// Recorded like Pebble's range tombstone: every key in [start, end) that the batch wrote
+	// before this point or that the database holds when the batch is written is deleted; the
+	// batch size is not affected.
+	b.writes = append(b.writes, keyValue{key: string(start), isRange: true, rangeEnd: string(end)})
+	b.ranges = append(b.ranges, len(b.writes)-1)
 	return nil
 }
 
@@ -173,9 +181,16 @@ func (b *batch) Write() error {
 	}
 
 	for _, write := range b.writes {
-		if write.delete {
+		switch {
+		case write.isRange:
+			for k := range b.db.db {
+				if k >= write.key && k < write.rangeEnd {
+					delete(b.db.db, k)
+				}
+			}
+		case write.delete:
 			delete(b.db.db, write.key)
-		} else {
+		default:
 			b.db.db[write.key] = write.value
 		}
 	}
